@@ -316,6 +316,8 @@ def run(prog, rep, tier):
     rep.rule('VALUE-dead', 'no result of a call is bound to a local that is never read (reaching '
              'definitions)')
     check_dead_computations(prog, rep, ['tenpy/tools/math.py', 'tenpy/linalg/svd_robust.py', 'tenpy/linalg/np_conserved.py'])
+    rep.rule('FACT-numpy-roles', 'dtype never in an integer slot of np.eye / np.tri / np.diag')
+    check_numpy_roles(prog, rep, ['tenpy/linalg/np_conserved.py', 'tenpy/tools/math.py', 'tenpy/linalg/svd_robust.py', 'tenpy/linalg/truncation.py', 'tenpy/linalg/charges.py'])
     return rep.finish(
         level='other',
         explanation='Charge compatibility of the new internal leg decided exhaustively over '
@@ -324,3 +326,41 @@ def run(prog, rep, tier):
         (n_ob, n_dis),
         proof={'obligations': n_ob, 'discharged': n_dis, 'exhaustive': True,
                'checker_cmd': './check C05', 'trusted_base': ['sa/charge.py', 'sa/linform.py']})
+
+
+# ------------------------------------------------------------------ FACT-numpy-roles
+_INT_SLOTS = {'np.eye': (1, 2), 'np.identity': (), 'np.tri': (1, 2), 'np.diag': (1, ),
+              'np.arange': (), 'np.linspace': (2, )}
+
+
+def _looks_like_dtype(e):
+    t = unparse(e)
+    return t.endswith('.dtype') or t in ('float', 'complex', 'int', 'bool', 'np.float64',
+                                         'np.complex128', 'np.intp', 'np.bool_', 'dtype',
+                                         'np.float32', 'np.complex64', 'np.int64')
+
+
+def check_numpy_roles(prog, rep, rels):
+    """FACT-numpy-roles: positional arguments of numpy constructors in their roles: the second and
+    third positional argument of np.eye / np.tri are integers (columns, diagonal), not the dtype
+    (np.eye(k, a.dtype) raises TypeError on the path that builds a block for an empty sector)."""
+    n = 0
+    for rel in rels:
+        m = prog.module(rel)
+        for q, f in m.functions.items():
+            for c in body_nodes(f):
+                if not isinstance(c, ast.Call):
+                    continue
+                fn = dotted(c.func)
+                if fn not in _INT_SLOTS:
+                    continue
+                n += 1
+                for k in _INT_SLOTS[fn]:
+                    if k < len(c.args) and _looks_like_dtype(c.args[k]):
+                        rep.violation('FACT-numpy-roles', m, q, 'dtype-in-int-slot:' + fn,
+                                      '`%s`: positional argument %d of %s is an integer '
+                                      '(number of columns / diagonal offset); the dtype must be '
+                                      'passed as dtype=...: TypeError when this line runs' %
+                                      (unparse(c)[:60], k + 1, fn), c.lineno)
+    rep.instance('FACT-numpy-roles', {'constructor_calls': n})
+    return n
